@@ -15,7 +15,8 @@ RULE = ('RunTask with 1-5 real command lines (/bin/sh -c printf to both streams,
         'sometimes programs found only through the PATH given to the task as subprocess argument), missing and '
         'non-executable programs at any position, task names with spaces, unicode, "/", NUL, ".", ".."; run through '
         'RunTask.do and (1 in 3) through the real Scheduler; 30% of the do() cases executed twice in the same output root '
-        '(the second run is the one read); two tasks per case to check directory ownership; '
+        '(the second run is the one read; some commands fail only during the first execution); outputs with carriage returns '
+        'and with bytes that are not UTF-8, compared byte for byte; two tasks per case to check directory ownership; '
         'non-trivial = a failure (non-zero exit, spawn error or bad name) occurs, or >= 2 commands succeed; '
         'distinct = case hash')
 CORRESPONDS = 'Model/RunCmd.lean (runLoop, run, sanitize, runTask, finalStatus) vs valjean.cosette.run.run/RunTask + Scheduler worker'
@@ -36,8 +37,37 @@ def gen_cli(rng, allow_spawn_error=True):
     if allow_spawn_error and r < 0.12:
         return {'kind': 'noexec'}
     code = 0 if rng.random() < 0.7 else rng.choice([1, 2, 3, 127, 255, 42, -9, -15, -2])   # negative: killed by a signal
-    return {'kind': 'sh', 'out': rng.choice(TOKENS) + str(rng.randrange(10)), 'err': rng.choice(TOKENS), 'code': code,
-            'order': rng.random() < 0.5}
+    cli = {'kind': 'sh', 'out': rng.choice(TOKENS) + str(rng.randrange(10)), 'err': rng.choice(TOKENS), 'code': code,
+           'order': rng.random() < 0.5}
+    r = rng.random()
+    if r < 0.08:       # carriage returns: the captured files hold what the command wrote, byte for byte
+        cli['out'] = rng.choice(['a\r\nb', 'p\rq', '\r', 'x\r\n']) + str(rng.randrange(10))
+        cli['err'] = rng.choice(['e\r\n', 'w\rz', ''])
+    elif r < 0.16:     # bytes that are not UTF-8 (binary output, another encoding)
+        cli['outraw'] = rng.choice([[0xff, 0xfe, 0x41], [0xe9, 0x74, 0xe9], [0x80], [0x41, 0xc3]])
+        if rng.random() < 0.5:
+            cli['errraw'] = rng.choice([[0xc0, 0x0a], [0xa0]])
+    return cli
+
+
+def raw_text(raw):
+    """how non-UTF-8 bytes are shown to the model and in reports"""
+    return show_bytes(bytes(raw))
+
+
+def show_bytes(data):
+    text = data.decode('utf-8', errors='surrogateescape')
+    return ''.join(f'<{ord(ch) - 0xdc00:02x}>' if 0xdc80 <= ord(ch) <= 0xdcff else ch for ch in text)
+
+
+def out_text(cli, which):
+    return raw_text(cli[which + 'raw']) if which + 'raw' in cli else cli[which]
+
+
+def read_captured(path):
+    """the captured file as text without any newline translation; bytes that are not UTF-8 shown as <hh>"""
+    with open(path, 'rb') as fobj:
+        return show_bytes(fobj.read())
 
 
 def gen_task(rng):
@@ -62,6 +92,13 @@ def gen(rng, tier, run):
     case = {'tasks': tasks, 'scheduler': rng.random() < 0.34}
     if not case['scheduler'] and rng.random() < 0.3:
         case['rerun'] = True      # the tasks are executed a second time in the same output root: what is read is the second run
+        if rng.random() < 0.6:
+            # a command whose outcome depends on the outside world: it exits with `code1` during the first execution
+            # (a file it needs is missing) and with `code` during the second one
+            task = rng.choice(tasks)
+            shs = [c for c in task['clis'] if c['kind'] == 'sh' and 'tool' not in c]
+            if shs:
+                rng.choice(shs)['code1'] = rng.choice([1, 2, 7])
     return case
 
 
@@ -83,13 +120,21 @@ def real_cli(cli, scratch):
         return [os.path.join(scratch, 'not-executable'), 'arg']
     if cli.get('tool'):
         return [cli['tool']]
-    return ['/bin/sh', '-c', sh_body(cli)]
+    return ['/bin/sh', '-c', sh_body(cli, scratch)]
 
 
-def sh_body(cli):
-    out = f"printf '%s' {shlex.quote(cli['out'])}"
-    err = f"printf '%s' {shlex.quote(cli['err'])} >&2"
+def sh_printf(cli, which):
+    if which + 'raw' in cli:
+        return "printf '" + ''.join('\\%03o' % b for b in cli[which + 'raw']) + "'"
+    return f"printf '%s' {shlex.quote(cli[which])}"
+
+
+def sh_body(cli, scratch=''):
+    out = sh_printf(cli, 'out')
+    err = sh_printf(cli, 'err') + ' >&2'
     body = f'{out}; {err}' if cli['order'] else f'{err}; {out}'
+    if 'code1' in cli:
+        body = f"{body}; test -e {scratch}/flag || exit {cli['code1']}"
     if cli['code'] < 0:
         return f"{body}; kill -{-cli['code']} $$"
     return f"{body}; exit {cli['code']}"
@@ -126,6 +171,8 @@ def run_impl(case, run):
                     task.do(env={}, config=config)
                 except Exception:  # pylint: disable=broad-except
                     pass
+            with open(os.path.join(scratch, 'flag'), 'w', encoding='utf-8'):
+                pass
         if case['scheduler']:
             from valjean.cosette.depgraph import DepGraph
             from valjean.cosette.scheduler import Scheduler
@@ -161,10 +208,8 @@ def run_impl(case, run):
             if not obs['raised']:
                 obs['codes'] = list(sub['return_codes'])
                 obs['dir'] = os.path.relpath(sub['output_dir'], root)
-                with open(sub['stdout'], encoding='utf-8') as fobj:
-                    obs['stdout'] = fobj.read()
-                with open(sub['stderr'], encoding='utf-8') as fobj:
-                    obs['stderr'] = fobj.read()
+                obs['stdout'] = read_captured(sub['stdout'])
+                obs['stderr'] = read_captured(sub['stderr'])
                 obs['files_in_dir'] = (os.path.dirname(sub['stdout']) == os.path.realpath(sub['output_dir'])
                                        and os.path.dirname(sub['stderr']) == os.path.realpath(sub['output_dir']))
             outs.append(obs)
@@ -182,7 +227,7 @@ def run_model(case, driver, run):
     for spec in case['tasks']:
         clis = []
         for c in spec['clis']:
-            res = None if c['kind'] != 'sh' else [c['code'], c['out'], c['err']]
+            res = None if c['kind'] != 'sh' else [c['code'], out_text(c, 'out'), out_text(c, 'err')]
             clis.append({'echo': echo_line(c), 'res': res})
         outs.append(driver.ask('runcmd', {'name': spec['name'], 'clis': clis}))
     return {'tasks': outs}
@@ -252,10 +297,10 @@ def oracle(case, impl, run):
             fails.append(('done_iff_all_zero', f"status {obs['status']}"))
         if obs['codes'] != [c['code'] for c in ran]:
             fails.append(('codes_are_prefix', f"return_codes {obs['codes']} but the commands run exit with {[c['code'] for c in ran]}"))
-        if obs['stdout'] != ''.join(c['out'] for c in ran):
-            fails.append(('output_in_order', f"stdout {obs['stdout']!r} != {''.join(c['out'] for c in ran)!r}"))
+        if obs['stdout'] != ''.join(out_text(c, 'out') for c in ran):
+            fails.append(('output_in_order', f"stdout {obs['stdout']!r} != {''.join(out_text(c, 'out') for c in ran)!r}"))
         import re
-        exp_err = ''.join(echo_line(c) + c['err'] for c in ran)
+        exp_err = ''.join(echo_line(c) + out_text(c, 'err') for c in ran)
         if re.sub(r'/tmp/c19_[^/ ]+', '<scratch>', obs['stderr']) != exp_err:
             fails.append(('output_in_order', f"stderr {obs['stderr']!r} != {exp_err!r}"))
         if not obs['files_in_dir']:
